@@ -25,7 +25,7 @@ func init() {
 		Doc: "KK handshake with each key-mismatch shape (initiator stored a wrong responder key / responder stored a wrong initiator key / both / initiator presents another static key) x auth payload sizes",
 	})
 	simrt.Register(&simrt.Scenario{
-		Prop: "C03", Name: "random", Count: tiered(3000, 60000),
+		Prop: "C03", Name: "random", Count: tiered(3000, 480000),
 		Run: c03Random, MaxOps: 1 << 20, Horizon: time.Hour,
 		Doc: "random equal / unequal passphrases, correct / wrong static keys, all constructible version ranges, auth payload sizes 0..1 MiB, a sample at production scrypt cost; tape-chosen start order of the two parties",
 	})
